@@ -17,7 +17,7 @@ from ..explore import bfs, replay as replay_hist, run_history, _digest
 from ..refmodel import mailbox as rm
 from ..refmodel import seqset
 from ..report import Violation, finish
-from ..worlds import DictWorld, BASE_TIME
+from ..worlds import DictWorld, MaildirWorld, BASE_TIME, scratch_parent
 
 PROP = 'C10'
 
@@ -51,9 +51,12 @@ NOW = datetime.fromtimestamp(BASE_TIME, timezone.utc)
 
 def hdr_split(body: bytes):
     k = body.find(b'\r\n\r\n')
-    if k < 0:
-        return body, b''
-    return body[:k + 4], body[k + 4:]
+    j = body.find(b'\n\n')
+    if k >= 0 and (j < 0 or k <= j):
+        return body[:k + 4], body[k + 4:]
+    if j >= 0:
+        return body[:j + 2], body[j + 2:]
+    return body, b''
 
 
 # ---------------------------------------------------------------------------
@@ -101,16 +104,23 @@ def name_of(d) -> str:
 FLAGSETS = [[b'\\Deleted'], [b'\\Seen', b'\\Flagged'], [b'kw'],
             [b'\\Recent'], []]
 SETS = [b'1', b'2:1', b'*', b'1:*', b'9', b'1,1', b'2:4', b'*:1', b'3:*']
-USETS = [b'101', b'103:101', b'*', b'1:*', b'999', b'102,102', b'102:104',
-         b'*:101', b'104:*', b'104,101']
+def usets(base=101):
+    u = lambda k: b'%d' % (base + k)     # noqa: E731
+    return [u(0), u(2) + b':' + u(0), b'*', b'1:*', b'999',
+            u(1) + b',' + u(1), u(1) + b':' + u(3), b'*:' + u(0),
+            u(3) + b':*', u(3) + b',' + u(0)]
+
+
+USETS = usets()
 ITEMS = [b'FLAGS', b'BODY[]', b'BODY.PEEK[]', b'BODY[TEXT]', b'RFC822',
          b'RFC822.HEADER', b'BINARY[]', b'(UID INTERNALDATE RFC822.SIZE)',
          b'BODY[HEADER]', b'RFC822.TEXT', b'BODY[]<2.7>', b'BODY[1]',
          b'BINARY.PEEK[]', b'BODY.PEEK[TEXT]<0.3>']
 
 
-def probe_alphabet(reduced=False):
+def probe_alphabet(reduced=False, base=101):
     P = []
+    USETS = usets(base)
     for uid in (False, True):
         allsets = USETS if uid else SETS
         sets = allsets
@@ -150,7 +160,7 @@ def probe_alphabet(reduced=False):
     return P
 
 
-def driver_alphabet():
+def driver_alphabet(base=101):
     A, B = 0, 1
     return [
         dict(s=A, cmds=[dict(op='append', dest=b'INBOX',
@@ -164,7 +174,7 @@ def driver_alphabet():
         dict(s=A, cmds=[dict(op='store', set=b'2:3', mode=b'',
                              flags=[b'\\Seen'])]),
         dict(s=A, cmds=[dict(op='expunge')]),
-        dict(s=A, cmds=[dict(op='uidexpunge', set=b'102')]),
+        dict(s=A, cmds=[dict(op='uidexpunge', set=b'%d' % (base + 1))]),
         dict(s=A, cmds=[dict(op='copy', set=b'1', dest=b'Other')]),
         dict(s=A, cmds=[dict(op='move', set=b'*', dest=b'Other')]),
         dict(s=A, cmds=[dict(op='fetch', set=b'1', item=b'BODY[]')]),
@@ -176,6 +186,9 @@ def driver_alphabet():
         dict(s=A, cmds=[dict(op='noop')]),
         dict(s=B, cmds=[dict(op='store', set=b'2', mode=b'+',
                              flags=[b'\\Answered'])]),
+        # another session clears a flag the acting session has cached
+        dict(s=B, cmds=[dict(op='store', set=b'2', mode=b'-',
+                             flags=[b'\\Seen'])]),
     ]
 
 
@@ -212,9 +225,14 @@ def glass_dump(world, user='alice'):
 
 
 def wire_dump(ctx, boxes):
-    """The same through a fresh read-only probe session (black box)."""
-    p = ctx.connect()
-    assert ctx.do(p, b'LOGIN alice pw').cond == 'OK'
+    """The same through a read-only probe session (black box)."""
+    p = ctx.extra.get('probe_conn')
+    if p is None or ctx.session(p).done:
+        p = ctx.connect()
+        st = ctx.do(p, b'LOGIN alice pw')
+        if st.cond != 'OK':
+            raise RuntimeError(f'probe LOGIN failed: {st.raw!r}')
+        ctx.extra['probe_conn'] = p
     out = {}
     for name in boxes:
         st = ctx.do(p, b'EXAMINE ' + name.encode())
@@ -234,6 +252,7 @@ def wire_dump(ctx, boxes):
             if d.get('RFC822.SIZE') != len(rows[-1][3] or b''):
                 rows[-1] = rows[-1] + ('size-mismatch', d.get('RFC822.SIZE'))
         out[name] = sorted(rows)
+    ctx.do(p, b'CLOSE')
     return out
 
 
@@ -278,6 +297,8 @@ def model_exec(store: rm.Store, sel, view, d, vio, site):
                 - {b'\\recent'}
             kw = {f for f in fl if not f.startswith(b'\\')}
             msg = box.add(fl, date, m['body'])
+            if store.adopt_appends:
+                msg.adopt_content = True
             if kw and not box.any_keyword:
                 tol.flag_alts[(d['dest'].decode(), msg.uid)] = {
                     msg.flags, msg.flags - kw}
@@ -475,7 +496,19 @@ def tol_src_name(tol):
     return None
 
 
-def adopt(store: rm.Store, actual):
+def fill_unknown(store: rm.Store, actual):
+    """maildir: content/date of a message are adopted when first observed."""
+    for name, box in store.boxes.items():
+        rows = {r[0]: r for r in (actual.get(name) or [])}
+        for m in box.msgs:
+            r = rows.get(m.uid)
+            if r is not None and getattr(m, 'adopt_content', False):
+                m.date = r[2]
+                m.body = r[3] or b''
+                m.adopt_content = False
+
+
+def adopt(store: rm.Store, actual, content=False):
     """After a tolerated deviation, continue from what actually happened."""
     for name, box in store.boxes.items():
         rows = actual.get(name) or []
@@ -484,6 +517,9 @@ def adopt(store: rm.Store, actual):
         for r in rows:
             m = by.get(r[0]) or rm.Msg(r[0], r[1], r[2], r[3])
             m.flags = frozenset(r[1])
+            if content:
+                m.date = r[2]
+                m.body = r[3] or b''
             new.append(m)
         box.msgs = new
         if new:
@@ -493,38 +529,113 @@ def adopt(store: rm.Store, actual):
 class Model:
     name = 'c10'
 
-    def __init__(self) -> None:
-        self.params = {}
-        self._alpha = driver_alphabet()
+    def __init__(self, kind='dict') -> None:
+        self.kind = kind
+        self.params = {'kind': kind}
+        self.base = 101 if kind == 'dict' else 1
+        self._alpha = driver_alphabet(self.base)
         for e in self._alpha:
             e['name'] = f"s{e['s']}:" + ' ; '.join(name_of(c) for c in e['cmds'])
 
     def alphabet(self):
         return self._alpha
 
-    def new(self):
-        w = DictWorld(users={'alice': ('pw', ())})
-        ctx = Ctx(w)
-        store = rm.Store()
-        store.boxes['INBOX'] = rm.Box()
-        store.boxes['Other'] = rm.Box()
-        for si in (0, 1):
+    def dump(self, ctx):
+        if self.kind == 'dict':
+            return glass_dump(ctx.world)
+        wd = wire_dump(ctx, ['INBOX', 'Other'])
+        return {k: [tuple(r[:4]) for r in (v or [])] for k, v in wd.items()}
+
+    _tmpl = {}
+
+    def _maildir_template(self):
+        """A prepared store (mailboxes + initial messages), built once per
+        process and copied for every execution."""
+        t = Model._tmpl.get(self.kind)
+        if t is None:
+            w = MaildirWorld(layout=self.kind, users={'alice': ('pw', ())},
+                             jail_cheap=True)
+            ctx = Ctx(w)
             ctx.connect()
-            assert ctx.do(si, b'LOGIN alice pw').cond == 'OK'
-        assert ctx.do(0, b'CREATE Other').cond == 'OK'
-        init = [(b'INBOX', mk(1), []), (b'INBOX', mk(2), [b'\\Seen']),
+            assert ctx.do(0, b'LOGIN alice pw').cond == 'OK'
+            assert ctx.do(0, b'CREATE Other').cond == 'OK'
+            for dest, body, fl in self._init_msgs():
+                st = ctx.do(0, render(dict(op='append', dest=dest,
+                                           msgs=[dict(body=body, flags=fl)])))
+                assert st.cond == 'OK', st.raw
+            # consume the \Recent claim like a store that has been in use
+            assert ctx.do(0, b'SELECT INBOX').cond == 'OK'
+            assert ctx.do(0, b'SELECT Other').cond == 'OK'
+            ctx.do(0, b'LOGOUT')
+            w.own_root = False
+            ctx.close()
+            t = Model._tmpl[self.kind] = w.root
+        return t
+
+    @staticmethod
+    def _init_msgs():
+        return [(b'INBOX', mk(1), []), (b'INBOX', mk(2), [b'\\Seen']),
                 (b'INBOX', mk(3), [b'\\Flagged']), (b'Other', mk(0), [])]
-        for dest, body, fl in init:
-            st = ctx.do(0, render(dict(op='append', dest=dest,
-                                       msgs=[dict(body=body, flags=fl)])))
-            assert st.cond == 'OK', st.raw
-            store.box(dest.decode()).add(fl, NOW, body)
+
+    def new(self):
+        store = rm.Store()
+        store.boxes['INBOX'] = rm.Box(next_uid=self.base)
+        store.boxes['Other'] = rm.Box(next_uid=self.base)
+        if self.kind == 'dict':
+            w = DictWorld(users={'alice': ('pw', ())})
+            ctx = Ctx(w)
+            for si in (0, 1):
+                ctx.connect()
+                assert ctx.do(si, b'LOGIN alice pw').cond == 'OK'
+            assert ctx.do(0, b'CREATE Other').cond == 'OK'
+            for dest, body, fl in self._init_msgs():
+                st = ctx.do(0, render(dict(op='append', dest=dest,
+                                           msgs=[dict(body=body, flags=fl)])))
+                assert st.cond == 'OK', st.raw
+                store.box(dest.decode()).add(fl, NOW, body)
+        else:
+            import shutil
+            from .. import fsjail
+            from ..worlds import scratch_root
+            troot = self._maildir_template()
+            root = scratch_root()
+            with fsjail.unjailed():
+                shutil.rmtree(root)
+                shutil.copytree(troot, root, symlinks=True)
+            w = MaildirWorld(layout=self.kind, root=root, reuse=True,
+                             users={'alice': ('pw', ())}, jail_cheap=True)
+            w.own_root = True
+            ctx = Ctx(w)
+            for si in (0, 1):
+                ctx.connect()
+                assert ctx.do(si, b'LOGIN alice pw').cond == 'OK'
+            for dest, body, fl in self._init_msgs():
+                store.box(dest.decode()).add(fl, NOW, body)
         ctx.extra['sel'] = {}
         for si in (0, 1):
-            assert ctx.do(si, b'SELECT INBOX').cond == 'OK'
+            st = ctx.do(si, b'SELECT INBOX')
+            assert st.cond == 'OK'
+            for r in st.responses:
+                if r.kind == 'untagged' and r.code == b'PERMANENTFLAGS':
+                    ctx.extra['permflags'] = r.code_arg
             assert ctx.do(si, b'FETCH 1:* (UID FLAGS)').cond == 'OK'
             ctx.extra['sel'][si] = ('INBOX', False)
         ctx.extra['store'] = store
+        if self.kind != 'dict':
+            store.adopt_appends = True
+            # the maildir backend rewrites line ends and keeps second
+            # granularity: take content and dates as first observed (C03 is
+            # the property about verbatim storage), and the flags it permits
+            # from PERMANENTFLAGS
+            d0 = self.dump(ctx)
+            ctx.extra['last_dump'] = d0
+            adopt(store, d0, content=True)
+            perm = ctx.extra.get('permflags') or []
+            for box in store.boxes.values():
+                box.any_keyword = b'\\*' in perm
+                box.permitted = frozenset(
+                    f.lower() for f in perm if f.startswith(b'\\')
+                    and f != b'\\*') or rm.SYSTEM
         ctx.steps.clear()
         for sh in ctx.shadows:
             sh.take_problems()
@@ -563,7 +674,10 @@ class Model:
             ctx.extra['sel'][si] = ('INBOX', False) if cond == 'OK' else None
         if exp['deselect'] and cond == 'OK':
             ctx.extra['sel'][si] = None
-        actual = glass_dump(ctx.world)
+        actual = self.dump(ctx)
+        ctx.extra['last_dump'] = actual
+        if self.kind != 'dict':
+            fill_unknown(store, actual)
         if cond != 'OK' and 'OK' in exp['conds']:
             # admissible refusal: nothing may have changed (tolerances aside)
             pass
@@ -720,14 +834,32 @@ class Model:
     def apply(self, ctx, i):
         ev = self._alpha[i]
         out = []
-        ctx.extra['pre_dump'] = glass_dump(ctx.world)
+        ctx.extra['pre_dump'] = self.dump(ctx)
         for d in ev['cmds']:
             out += self.exec_cmd(ctx, ev['s'], d)
         return out
 
     def key(self, ctx):
+        if self.kind != 'dict':
+            # no state abstraction on maildir: histories are never merged
+            return tuple((st.si, st.sent[0][:40], st.summary())
+                         for st in ctx.steps)
         return (dict_world_key(ctx.world, ctx.shadows),
                 tuple(sorted(ctx.extra['sel'].items())))
+
+    def sig(self, ctx):
+        """cheap 'did anything change' signature used to reuse a world for
+        the next probe"""
+        if self.kind == 'dict':
+            return _digest(self.key(ctx)) + _digest(repr(
+                ctx.extra['store'].boxes['INBOX'].rows()).encode())
+        views = tuple(tuple(self.view(ctx, si) or ()) for si in (0, 1))
+        sels = tuple(sorted(ctx.extra['sel'].items()))
+        d = ctx.extra.get('last_dump')
+        if d is None:
+            d = self.dump(ctx)
+        return _digest((repr(d), views, sels,
+                        tuple(sh.key() for sh in ctx.shadows[:2])))
 
     def outcome(self, ctx):
         return ctx.last.summary() if ctx.last else None
@@ -749,7 +881,8 @@ _M = None
 _PROBES = None
 
 
-def _level2(history):
+def _level2(task):
+    history, lo, hi = task
     m: Model = _M
     out = []
     evals = 0
@@ -757,21 +890,23 @@ def _level2(history):
     ctx = None
     k0 = None
     try:
-        for pi, d in enumerate(_PROBES):
+        for pi in range(lo, hi):
+            d = _PROBES[pi]
             if ctx is None:
                 ctx = replay_hist(m, history)
-                k0 = _digest(m.key(ctx)) + _digest(repr(ctx.extra['store'].boxes['INBOX'].rows()).encode())
+                k0 = m.sig(ctx)
                 rebuilt += 1
-            ctx.extra['pre_dump'] = glass_dump(ctx.world)
+            ctx.extra['pre_dump'] = ctx.extra.get('last_dump') \
+                if m.kind != 'dict' and ctx.extra.get('last_dump') is not None \
+                else m.dump(ctx)
             viols = m.exec_cmd(ctx, 0, d)
             evals += 1
-            # black-box cross-check of the glass-box dump on this (now
-            # discarded or unchanged) world for state-changing probes
-            k1 = _digest(m.key(ctx)) + _digest(repr(ctx.extra['store'].boxes['INBOX'].rows()).encode())
-            changed = (k1 != k0)
+            changed = (m.sig(ctx) != k0)
             if changed or viols:
                 hsel = _digest((history, pi))[0] < 20     # ~8% by hash
-                if (d['op'] != 'fetch' and hsel) or viols:
+                if m.kind == 'dict' and ((d['op'] != 'fetch' and hsel)
+                                         or viols):
+                    # black-box cross-check of the glass-box dump
                     g = glass_dump(ctx.world)
                     wd = wire_dump(ctx, list(g))
                     for name in g:
@@ -786,9 +921,11 @@ def _level2(history):
                 m.close(ctx)
                 ctx = None
             for v in viols:
-                v['replay'] = {'model': 'c10', 'params': {},
+                v['replay'] = {'model': 'c10', 'params': m.params,
                                'history': list(history), 'probe': pi,
                                'probe_cmd': name_of(d)}
+                if m.kind != 'dict':
+                    v['site'] = m.kind + ':' + v['site']
             out += viols
     finally:
         if ctx is not None:
@@ -797,68 +934,97 @@ def _level2(history):
 
 
 def run(*, tier, seed, jobs, progress, opts):
+    with scratch_parent():
+        return _run(tier=tier, seed=seed, jobs=jobs, progress=progress,
+                    opts=opts)
+
+
+def _run(*, tier, seed, jobs, progress, opts):
     global _M, _PROBES
     t0 = time.perf_counter()
-    depth = int(opts.get('depth', 2 if tier == 'quick' else 3))
-    m = Model()
-    res = bfs(m, depth, jobs=jobs, seed=seed, progress=progress)
-    if res.errors:
-        print(res.errors[0])
-        raise RuntimeError('harness error during exploration')
-    violations = list(res.violations)
-    probes = probe_alphabet(reduced=(tier == 'quick'
-                                     and 'full' not in opts))
-    _M, _PROBES = m, probes
-    hist = sorted(res.state_histories, key=lambda h: (len(h), h))
-    cap = int(opts.get('max_states', 400 if tier == 'quick' else 100000))
-    capped = len(hist) > cap
-    hist = hist[:cap]
-    evals = 0
+    if 'depth' in opts:
+        plans = [(opts.get('kind', 'dict'), int(opts['depth']))]
+    elif tier == 'quick':
+        plans = [('dict', 2), ('++', 1)]
+    else:
+        plans = [('dict', 3), ('++', 2), ('fs', 1)]
+    violations = []
+    cov = {'plans': [], 'states': 0, 'transitions': 0,
+           'traces_validated_against_impl': 0, 'samples': []}
     njobs = jobs or min(16, os.cpu_count() or 1)
-    with mp.get_context('fork').Pool(njobs) as pool:
-        for k, (vs, ev, rb) in enumerate(
-                pool.imap_unordered(_level2, hist, chunksize=1)):
-            violations += vs
-            evals += ev
-            if progress and k % 50 == 0:
-                print(f'  level2: {k}/{len(hist)} states, {evals} probe '
-                      f'executions, {len(violations)} violations, '
-                      f't={time.perf_counter() - t0:.0f}s', flush=True)
-    c = res.coverage(m)
-    cov = {k: c[k] for k in ('states', 'transitions', 'depth_completed',
-                             'frontier_sizes', 'state_cap_hit')}
-    cov['traces_validated_against_impl'] = c['transitions'] + evals
-    cov['driver_alphabet'] = [e['name'] for e in m.alphabet()]
-    cov['probe_alphabet_size'] = len(probes)
-    cov['probe_executions'] = evals
-    cov['states_probed'] = len(hist)
-    cov['states_probed_capped'] = capped
-    cov['transitions'] = c['transitions'] + evals
-    cov['samples'] = [[e['name'] for e in s] for s in c['samples'][:3]] + \
-        [name_of(p) for p in probes[::97]]
-    cov['exhaustive'] = not capped
-    cov['rule'] = ('level 1: BFS over driver sequences <= depth (canonical-'
-                   'state dedup); level 2: every probe command applied once '
-                   'in every reached state (shortest-history first when '
-                   'capped) and compared with the reference model')
+    for kind, depth in plans:
+        m = Model(kind)
+        res = bfs(m, depth, jobs=jobs, seed=seed, progress=progress)
+        if res.errors:
+            print(res.errors[0])
+            raise RuntimeError('harness error during exploration')
+        vs = list(res.violations)
+        if kind != 'dict':
+            for v in vs:
+                v['site'] = kind + ':' + v['site']
+        violations += vs
+        probes = probe_alphabet(reduced=(tier == 'quick' or kind != 'dict')
+                                and 'full' not in opts, base=m.base)
+        _M, _PROBES = m, probes
+        hist = sorted(res.state_histories, key=lambda h: (len(h), h))
+        cap = int(opts.get('max_states', 400 if tier == 'quick' else 100000))
+        capped = len(hist) > cap
+        hist = hist[:cap]
+        evals = 0
+        step = 60 if kind != 'dict' else 250
+        l2 = [(h, lo, min(lo + step, len(probes))) for h in hist
+              for lo in range(0, len(probes), step)]
+        with mp.get_context('fork').Pool(njobs) as pool:
+            for k, (vs, ev, rb) in enumerate(
+                    pool.imap_unordered(_level2, l2, chunksize=1)):
+                violations += vs
+                evals += ev
+                if progress and k % 50 == 0:
+                    print(f'  level2[{kind}]: {k}/{len(l2)} tasks, {evals} '
+                          f'probe executions, {len(violations)} violations, '
+                          f't={time.perf_counter() - t0:.0f}s', flush=True)
+        c = res.coverage(m)
+        cov['plans'].append({
+            'backend': kind, 'driver_depth': depth,
+            'dedup': kind == 'dict',
+            **{k: c[k] for k in ('states', 'depth_completed',
+                                 'frontier_sizes', 'state_cap_hit')},
+            'driver_transitions': c['transitions'],
+            'probe_alphabet_size': len(probes), 'probe_executions': evals,
+            'states_probed': len(hist), 'states_probed_capped': capped})
+        cov['states'] += c['states']
+        cov['transitions'] += c['transitions'] + evals
+        cov['traces_validated_against_impl'] += c['transitions'] + evals
+        cov['samples'] += [[e['name'] for e in s] for s in c['samples'][:2]] \
+            + [name_of(p) for p in probes[::197]]
+        cov['driver_alphabet'] = [e['name'] for e in m.alphabet()]
+    cov['exhaustive'] = all(not p['states_probed_capped']
+                            for p in cov['plans'])
+    cov['rule'] = ('per backend - level 1: BFS over driver sequences <= depth '
+                   '(dict: canonical-state dedup; maildir: no dedup); level '
+                   '2: every probe command applied once in every reached '
+                   'state and compared with the reference model')
     return finish(PROP, tier=tier, seed=seed, level='model_checking',
                   coverage=cov, violations=violations, t0=t0, assumptions=[
-                      'dict backend; acting session + one concurrent session',
+                      'acting session + one concurrent session',
                       'tolerances listed in DESIGN.md section 3 C10 '
                       '(RFC 2180 behaviour for messages another session '
                       'expunged, keywords outside PERMANENTFLAGS, \\Deleted '
-                      'messages outside the session view on EXPUNGE)'])
+                      'messages outside the session view on EXPUNGE)',
+                      'maildir: content and INTERNALDATE of an appended '
+                      'message are adopted as first observed (the backend '
+                      'rewrites line ends; verbatim storage is C03)'])
 
 
 def replay(rec):
     r = rec['replay']
-    m = Model()
+    m = Model((r.get('params') or {}).get('kind', 'dict'))
     if 'probe' in r:
         ctx = replay_hist(m, r['history'])
         for st in ctx.steps:
             pass
-        d = probe_alphabet()[r['probe']]
-        ctx.extra['pre_dump'] = glass_dump(ctx.world)
+        d = probe_alphabet(base=m.base)[r['probe']]
+        ctx.extra['pre_dump'] = m.dump(ctx)
         print('HISTORY', [m.alphabet()[i]['name'] for i in r['history']])
         viols = m.exec_cmd(ctx, 0, d)
         ctx.show_last()
